@@ -604,7 +604,11 @@ pub async fn deliver_with(t: &BuiltTree, int: &mut Interned, order: &[usize], al
                     // a block that is not connected to the stored chain is "parked" only if it is answered
                     // OffChain and nothing but the block store changed; everything else (a reorganisation
                     // attempt onto a disconnected chain, even a failed one) counts as an effect of the finding
-                    if class.code() != 2 || bs.tip_hash != snap.tip_hash || bs.lc_index != snap.lc_index || bs.utxo != snap.utxo || others_changed {
+                    // a not-connected block at exactly the tip height can neither clear index entries (the loop
+                    // runs over block_id + 1 ..= latest) nor be adopted (latest >= its id): any change there is
+                    // NOT explained by the finding and stays a violation
+                    let at_tip_height = t.blocks[i].id == bs.tip_id && bs.tip_id != 0;
+                    if !at_tip_height && (class.code() != 2 || bs.tip_hash != snap.tip_hash || bs.lc_index != snap.lc_index || bs.utxo != snap.utxo || others_changed) {
                         out.first_orphan_effect = Some(out.delivered.len() - 1);
                     }
                 }
@@ -1045,11 +1049,19 @@ pub fn oracle_c05(t: &BuiltTree, delivered: usize, before: &Obs, after: &Obs) ->
         || a.blocks.iter().any(|x| x.0 == d.previous_block_hash);
     if !parent_known && !a.blocks.is_empty() {
         if a.tip_hash != b.tip_hash || a.lc_index != b.lc_index {
-            f.push(format!(
-                "ORPHAN: block {} (id {}) arrived before its parent and disturbed tip/index",
-                delivered + 1,
-                d.id
-            ));
+            if d.id == a.tip_id {
+                f.push(format!(
+                    "block {} (id {} = tip height) arrived before its parent and disturbed tip/index although nothing above its id exists",
+                    delivered + 1,
+                    d.id
+                ));
+            } else {
+                f.push(format!(
+                    "ORPHAN: block {} (id {}) arrived before its parent and disturbed tip/index",
+                    delivered + 1,
+                    d.id
+                ));
+            }
         }
     }
     f
@@ -1546,6 +1558,44 @@ pub async fn run_property(profile: &Profile, args: &Args) {
                     order.swap(j, j + 1);
                     parked_order = true;
                     parked_block = Some(j + 1);
+                }
+            }
+            if !loading && oi == 3 && !oracle_only {
+                // "orphan at exactly tip height": block x is delivered while its parent p (and p's other
+                // descendants) are withheld, after everything else; x is chosen so that its id equals the
+                // highest id among the valid connected blocks delivered before it. p and the rest follow.
+                let n = t.blocks.len();
+                let is_desc = |mut b: usize, p: usize| -> bool {
+                    loop {
+                        if b == p {
+                            return true;
+                        }
+                        match parents[b] {
+                            Some(q) => b = q,
+                            None => return false,
+                        }
+                    }
+                };
+                let mut cands: Vec<(usize, usize)> = vec![];
+                for x in 1..n {
+                    if let Some(p) = parents[x] {
+                        if p == 0 {
+                            continue;
+                        }
+                        let top = (0..n).filter(|b| !is_desc(*b, p) && !t.eff_invalid[*b]).map(|b| t.blocks[b].id).max().unwrap_or(0);
+                        if t.blocks[x].id == top {
+                            cands.push((x, p));
+                        }
+                    }
+                }
+                if !cands.is_empty() {
+                    let (x, p) = cands[rng.below(cands.len() as u64) as usize];
+                    let mut o: Vec<usize> = (0..n).filter(|b| !is_desc(*b, p)).collect();
+                    o.push(x);
+                    o.extend((0..n).filter(|b| is_desc(*b, p) && *b != x));
+                    order = o;
+                    parked_order = true;
+                    parked_block = Some(x);
                 }
             }
             if profile.allow_orphans && !orphans_now && !loading && !parked_order {
